@@ -121,7 +121,7 @@ def run(ctx):
     for (ln, x), a, b in zip(ops, c, m):
         ca, ma = a.split(" "), b.split(" ")
         rep = dict(kind="tie", correspondence="Serialize.rawFrame / serializeFrame vs ZSTD_writeFrameHeader + ZSTD_noCompressBlock / ZSTD_rleCompressBlock + ZSTD_writeEpilogue",
-                   op=ln[:400000], c=a[:400000], model=b[:400000])
+                   op=ln[:40000000], c=a[:40000000], model=b[:40000000])
         if a == "bad-op" or b == "bad-op" or a.startswith("err") or len(ca) != 2 or len(ma) != 2:
             bad += 1
             if bad <= 8:
@@ -151,7 +151,7 @@ def run(ctx):
             bad += 1
             if bad <= 8:
                 ctx.violation("ZSTD_decompress applied to the frame written by the serializer MODEL does not regenerate the input: %s" % r,
-                              dict(kind="tie", correspondence="ZSTD_decompress(Serialize.serializeFrame a blocks x) = x", op=dl[:400000], c=r, model="ok"))
+                              dict(kind="tie", correspondence="ZSTD_decompress(Serialize.serializeFrame a blocks x) = x", op=dl[:40000000], c=r, model="ok"))
     return dict(evaluations=len(lines) + len(declines), mismatches=bad)
 
 
